@@ -756,7 +756,66 @@ def c04_preger(inp):
     return {"reproduced": False, "detail": f"SD_PreGER has the prescribed block structure on {n_ok} random multi-setup records"}
 
 
-DRIVERS = {"c13_sdest": c13_sdest, "c04_preger": c04_preger, "c03_split": c03_split, "c14_sequences": c14_sequences, "c16_dialog": c16_dialog, "c02_merge": c02_merge, "c09_run": c09_run, "c10_run": c10_run, "c10_fn": c10_fn}
+# ----------------------------------------------------------------------------------
+# C18: indicators against independent formulas
+# ----------------------------------------------------------------------------------
+
+def c18_indicators(inp):
+    from pyoma2.functions import gen
+    rng = np.random.RandomState(8)
+    bad = []
+
+    def mac_ref(x, a):
+        x, a = x / np.linalg.norm(x), a / np.linalg.norm(a)
+        return abs(np.vdot(x, a)) ** 2
+    for trial in range(400):
+        n = int(rng.randint(2, 20))
+        x = rng.randn(n) + 1j * rng.randn(n)
+        a = rng.randn(n) + 1j * rng.randn(n)
+        if trial % 5 == 0:
+            x[rng.randint(n)] = 0
+        cfac = np.exp(rng.uniform(np.log(1e-6), np.log(1e6))) * np.exp(1j * rng.uniform(0, 2 * np.pi))
+        r = rng.randn(n)
+        if trial % 7 == 0:
+            r[rng.randint(n)] = 0.0
+        try:
+            m = float(gen.MAC(x, a))
+            if not (-1e-12 <= m <= 1 + 1e-9) or abs(m - mac_ref(x, a)) > 1e-9 or abs(float(gen.MAC(cfac * x, a)) - m) > 1e-8:
+                bad.append(f"MAC: value/range/scale invariance fails for n={n}, |c|={abs(cfac):.3g}: {m}, {float(gen.MAC(cfac * x, a))}, ref {mac_ref(x, a)}")
+            X, A = rng.randn(n, 3) + 1j * rng.randn(n, 3), rng.randn(n, 2) + 1j * rng.randn(n, 2)
+            M = gen.MAC(X, A)
+            if M.shape != (3, 2) or not np.allclose(gen.MAC(A, X), M.T, atol=1e-12) or abs(M[1, 0] - mac_ref(X[:, 1], A[:, 0])) > 1e-9:
+                bad.append("MAC: table orientation / symmetry fails")
+            if abs(float(gen.MAC(cfac * r, r.astype(complex))) - 1) > 1e-9:
+                bad.append(f"MAC of a collinear pair is {float(gen.MAC(cfac * r, r.astype(complex)))}")
+            mcf = float(gen.MCF(x)[0])
+            if not (-1e-12 <= mcf <= 1 + 1e-12) or abs(float(gen.MCF(cfac * x)[0]) - mcf) > 1e-8 or abs(float(gen.MCF(cfac * r)[0])) > 1e-9:
+                bad.append(f"MCF range/invariance/collinear fails: {mcf}, {float(gen.MCF(cfac * x)[0])}, {float(gen.MCF(cfac * r)[0])}")
+            mpc = complex(gen.MPC(x)).real
+            if not (-1e-12 <= mpc <= 1 + 1e-9) or abs(complex(gen.MPC(cfac * x)).real - mpc) > 1e-7:
+                bad.append(f"MPC range/invariance fails: {mpc} vs {complex(gen.MPC(cfac * x)).real}")
+            if np.std(r) > 1e-9 and abs(complex(gen.MPC(cfac * r)).real - 1) > 1e-7:
+                bad.append(f"MPC of a collinear shape is {gen.MPC(cfac * r)}")
+            mpd = float(gen.MPD(x))
+            if not np.isfinite(mpd) or not (-1e-12 <= mpd <= np.pi / 2 + 1e-12):
+                bad.append(f"MPD not finite / out of [0, pi/2] for a shape {'with a zero component' if (x == 0).any() else ''}: {mpd}")
+            mpd0 = float(gen.MPD(cfac * r))
+            if not np.isfinite(mpd0) or abs(mpd0) > 1e-6:
+                bad.append(f"MPD of a collinear shape {'with a zero component ' if (r == 0).any() else ''}is {mpd0}")
+            cc = float(rng.randn())
+            if abs(float(gen.MSF(r, cc * r)[0]) - cc) > 1e-9 * max(1, abs(cc)):
+                bad.append(f"MSF(v, c v) = {float(gen.MSF(r, cc * r)[0])} for c = {cc}")
+        except Exception as e:      # noqa: BLE001
+            bad.append(f"{type(e).__name__}: {e}")
+        if bad:
+            break
+    if bad:
+        return {"reproduced": True, "detail": bad[0]}
+    return {"reproduced": False, "detail": "MAC/MCF/MPC/MPD/MSF agree with independent formulas, ranges, invariances and collinear values on 400 random shapes "
+                                           "(MPC on constant real vectors excluded: recorded finding)"}
+
+
+DRIVERS = {"c18_indicators": c18_indicators, "c13_sdest": c13_sdest, "c04_preger": c04_preger, "c03_split": c03_split, "c14_sequences": c14_sequences, "c16_dialog": c16_dialog, "c02_merge": c02_merge, "c09_run": c09_run, "c10_run": c10_run, "c10_fn": c10_fn}
 
 
 def main():
